@@ -431,6 +431,12 @@ class C06(core.Prop):
         return ['query', src, q], tables, exact
 
     def _set(self, rng):
+        if rng.random() < 0.25:
+            # the two branches reference two different tables under the same name
+            mk = lambda t, col: ['query', ['ref', ['table', t], 't'], {'sel': [['elem', 't', 'id'], ['elem', 't', col]],
+                                                                     'pre': fix(dslgen.gen_pred(rng, [(['elem', 't', 'id'], 'int'), (['elem', 't', col], 'int')], 1)) if rng.random() < 0.6 else None,
+                                                                     'grp': [], 'post': None, 'ord': [], 'rows': None}]
+            return ['set', rng.choice(['union', 'intersection', 'difference']), mk('A', rng.choice(['x', 'y'])), mk('B', rng.choice(['x', 'z']))], ['A', 'B'], False
         t = rng.choice(['A', 'B'])
         name = 'r0'
         style = rng.random()
@@ -470,6 +476,12 @@ class C06(core.Prop):
             q(A, sel=[['col', 'A', 'id']], pre=['bin', 'or', ['bin', '==', ['col', 'A', 's'], ['lit', 'a']], ['not', ['bin', '==', ['col', 'A', 'x'], ['lit', 1]]]]),
             ['set', 'union', q(ra, sel=[['elem', 'a2', 'x']]), q(copy.deepcopy(ra), sel=[['elem', 'a2', 'x']], pre=['bin', '>', ['elem', 'a2', 'x'], ['lit', 1]])],
             ['set', 'difference', q(A, sel=[['col', 'A', 'x']]), q(A, sel=[['col', 'A', 'id']])],
+            # two DIFFERENT references carrying the same name in sibling scopes (union branches / joined sub-queries)
+            ['set', 'union', q(['ref', A, 't'], sel=[['elem', 't', 'x']]), q(['ref', B, 't'], sel=[['elem', 't', 'x']])],
+            q(['join', 'inner',
+               ['ref', q(['ref', A, 't'], sel=[['elem', 't', 'id'], ['alias', ['elem', 't', 'x'], 'ax']]), 'q1'],
+               ['ref', q(['ref', B, 't'], sel=[['elem', 't', 'id'], ['alias', ['elem', 't', 'z'], 'bz']]), 'q2'],
+               ['bin', '==', ['elem', 'q1', 'id'], ['elem', 'q2', 'id']]], sel=[['elem', 'q1', 'ax'], ['elem', 'q2', 'bz']]),
             q(A, sel=[['col', 'A', 'id'], ['col', 'A', 'x']], ord=[[['col', 'A', 'id'], 'descending']], rows=[2, 1]),
         ]
         exact = [False] * (len(stmts) - 1) + [True]
